@@ -214,10 +214,36 @@ func FootnoteDoc(t *rapid.T, p *Profile, label string) []byte {
 	return p.Repair(b)
 }
 
+// LongDoc repeats a small unit many times (optionally inside a container):
+// the documents that cross size thresholds (line counts, nesting x lines,
+// buffer capacities) which short soup never reaches.
+func LongDoc(t *rapid.T, p *Profile, label string) []byte {
+	units := []string{"- a\n", "- a\n  - b\n", "1. a\n", "> a\n", "> - a\n", "a\n", "a\n\n", "- a\n\n", "* a\n* b\n", "- a\n  b\n", "  - c\n", "| a | b |\n", "# h\n", "- [ ] t\n", "    code\n", "[r]: /u\n", "x[^1]\n", "`c` *e*\n", "\n", "- a\n    - b\n        - c\n", "> > a\n", "- > a\n", "a  \n", ": d\n"}
+	n := rapid.IntRange(1, 3).Draw(t, label+"nu")
+	var unit []byte
+	for i := 0; i < n; i++ {
+		unit = append(unit, rapid.SampledFrom(units).Draw(t, label+"u")...)
+	}
+	k := rapid.IntRange(20, 300).Draw(t, label+"k")
+	if k*len(unit) > 6000 {
+		k = 6000 / len(unit)
+	}
+	doc := bytes.Repeat(unit, k)
+	if rapid.IntRange(0, 2).Draw(t, label+"head") == 0 {
+		doc = append([]byte(rapid.SampledFrom([]string{"intro\n\n", "|a|b|\n|-|-|\n", "- first\n", "> q\n", "```\nc\n```\n"}).Draw(t, label+"h")), doc...)
+	}
+	if rapid.IntRange(0, 2).Draw(t, label+"tail") == 0 {
+		doc = append(doc, rapid.SampledFrom([]string{"\nend\n", "- last\n\n  para\n", "\n\n\nx\n", "  - deep\n"}).Draw(t, label+"tl")...)
+	}
+	return p.Repair(doc)
+}
+
 // Doc draws a document from the union of the shared generators.
 // maxTok bounds the soup length.
 func Doc(t *rapid.T, p *Profile, maxTok int, label string) ([]byte, string) {
-	switch k := rapid.IntRange(0, 11).Draw(t, label+"kind"); {
+	switch k := rapid.IntRange(0, 12).Draw(t, label+"kind"); {
+	case k == 12:
+		return LongDoc(t, p, label+"long"), "long"
 	case k == 11:
 		return FootnoteDoc(t, p, label+"fn"), "footnotes"
 	case k <= 3:
